@@ -42,6 +42,7 @@ type Cfg struct {
 	Discards  int    `json:"discards"`
 	Depth     int    `json:"depth"`
 	Forward   bool   `json:"forward"`
+	Fwdmd     bool   `json:"fwdmd"`
 }
 type Op struct {
 	Op string `json:"op"`
@@ -327,6 +328,14 @@ func (r *run) newHTTPServer(hop int) *httpServer {
 			if err != nil {
 				vio.Die("%v", err)
 			}
+			if r.cfg.Fwdmd {
+				// the handler passes the trace headers it received on: the traced client must replace them
+				for _, name := range []string{httpm.TraceIDHeader, httpm.ParentSpanIDHeader} {
+					if vs, ok := req.Header[http.CanonicalHeaderKey(name)]; ok {
+						out.Header[http.CanonicalHeaderKey(name)] = append([]string{}, vs...)
+					}
+				}
+			}
 			if r.cfg.Forward {
 				out.Header.Set(r.forwardHeader(), id)
 			}
@@ -465,6 +474,10 @@ func (s *grpcServer) serve(md metadata.MD, method string) {
 			Parent: tok(ctx.Value(middleware.TraceParentSpanIDKey))})
 		if s.hop < r.cfg.Depth {
 			octx := ctx
+			if r.cfg.Fwdmd {
+				// the handler forwards its incoming metadata downstream: the traced client must replace the trace keys
+				octx = metadata.NewOutgoingContext(octx, hmd.Copy())
+			}
 			if r.cfg.Forward {
 				octx = metadata.AppendToOutgoingContext(octx, grpcm.RequestIDMetadataKey, id)
 			}
@@ -622,6 +635,7 @@ func randCase(rn *rand.Rand) (Cfg, []Req) {
 	}
 	c.Discards = rn.Intn(3)
 	c.Forward = c.Depth > 1 && rn.Intn(2) == 0
+	c.Fwdmd = c.Depth > 1 && rn.Intn(2) == 0
 	n := 1 + rn.Intn(5)
 	reqs := make([]Req, n)
 	for i := range reqs {
